@@ -18,6 +18,10 @@ func init() {
 var policyUniverse = [][]string{{}, {"x"}, {"-f", "x"}, {"-z"}, {"-i=zz"}, {"-i", "5"}, {"-o"}, {"zz"}, {"7"}}
 
 func runPolicy(c *Ctx) {
+	if c.Shard == 0 && c.Begin("policy-rerun") {
+		policyRerun(c)
+		c.Note("second runs", "shape 0 with declaration-free sub-commands: a first accepted Run, then on the same instance a second Run over {rejections at c1 / d1 / c2, one accepted control} x every policy assignment of the path")
+	}
 	idx := 0
 	kinds := []int{1, 3, 6, 7}
 	shapes := treeShapes(c.Thorough())
@@ -97,6 +101,71 @@ func runPolicy(c *Ctx) {
 	}
 }
 
+// policyRerun: a second Run on the SAME application instance (sub-commands without declarations, which can be
+// initialised twice) must follow the policy exactly like a first one.
+func policyRerun(c *Ctx) {
+	shape := treeShapes(false)[0]
+	slots := numberSlots(shape)
+	for _, rootKind := range []int{3, 6} {
+		assign := make([]int, len(slots))
+		assign[0] = rootKind
+		rootOK := map[int][]string{3: {"x"}, 6: {}}[rootKind]
+		firsts := [][]string{append(append([]string{}, rootOK...), "c1", "d1"), append(append([]string{}, rootOK...), "c2"), append(append([]string{}, rootOK...), "k1")}
+		seconds := [][]string{{"c1", "x"}, {"c1", "d1", "x"}, {"k1", "e1", "-z"}, {"c2", "x"}, {"c1", "d1"}}
+		for pc := 0; pc < 3*4*4; pc++ {
+			pols := make([]int, len(slots))
+			for i := range pols {
+				pols[i] = -1
+			}
+			pols[0] = pc % 3
+			pols[1] = (pc/3)%4 - 1
+			pols[2] = (pc/12)%4 - 1
+			for _, first := range firsts {
+				for _, sec := range seconds {
+					second := append(append([]string{}, rootOK...), sec...)
+					app, tr := buildTree(shape, treeOpts{kinds: assign, pols: pols, rootPol: pols[0], hooks: true})
+					o1 := runIsolated(func() error { return app.Run(append([]string{"app"}, first...)) })
+					if !(o1.Returned && o1.Err == nil) {
+						continue // judged by the main enumeration
+					}
+					tr.calls = nil
+					o := runIsolated(func() error { return app.Run(append([]string{"app"}, second...)) })
+					c.Count("evaluations", 1)
+					c.Count("second_runs_on_same_instance", 1)
+					r := route(shape, assign, second)
+					key := fmt.Sprintf("tree=%s specs=%s policies=%s first Run %q then second Run %q on the same instance", shapeText(shape), specsText(shape, assign), polsText(shape, pols), first, second)
+					cs := Case{"rerun": true, "kinds": assign, "pols": pols, "first": first, "args": second}
+					obs := fmt.Sprintf("calls=%v returned=%v err=%v panicked=%v panicval=%v exits=%v", tr.calls, o.Returned, o.Err, o.Panicked, safeSprint(o.PanicVal), o.Exits)
+					if r.target != nil {
+						if !(o.Returned && o.Err == nil && !o.Panicked && len(o.Exits) == 0) {
+							c.Violation("C07", key, cs, "accepted: Run returns nil", obs)
+						}
+						continue
+					}
+					c.Count("nontrivial", 1)
+					pol := -1
+					for n := r.rejectAt; n != nil && pol < 0; n = n.parent {
+						pol = pols[n.slot]
+					}
+					ok := len(tr.calls) == 0 && hasUsageOf(o.Stderr, r.rejectAt)
+					switch pol {
+					case 0:
+						ok = ok && o.Returned && o.Err != nil && len(o.Exits) == 0 && !o.Panicked
+					case 1:
+						ok = ok && len(o.Exits) == 1 && o.Exits[0] == 2 && !o.Panicked && !o.Returned
+					case 2:
+						_, isErr := o.PanicVal.(error)
+						ok = ok && o.Panicked && isErr && len(o.Exits) == 0
+					}
+					if !ok {
+						c.Violation("C07", key, cs, fmt.Sprintf("rejected at %s under %s: nothing runs, usage of that command printed, policy followed", r.rejectAt.path(), []string{"ContinueOnError", "ExitOnError", "PanicOnError"}[pol]), obs)
+					}
+				}
+			}
+		}
+	}
+}
+
 func kindSpecs(ks []int) string {
 	var p []string
 	for _, k := range ks {
@@ -106,6 +175,10 @@ func kindSpecs(ks []int) string {
 }
 
 func replayPolicy(c *Ctx, cs Case) {
+	if rr, _ := cs["rerun"].(bool); rr {
+		policyRerun(c) // small: re-run the whole second-run enumeration
+		return
+	}
 	shape := treeShapes(true)[cInt(cs, "shape")]
 	numberSlots(shape)
 	var assign, pols []int
